@@ -3,7 +3,7 @@
    Request = opcode :: length-prefixed strings. *)
 From Coq Require Import List NArith Bool Arith.
 Import ListNotations.
-From PV Require Import Regex Base UnicodeTables LexTables PyRepr Lexer AstDefs AstSpec AstImpl NodeModel ParserTables ParserBase ParserDecl ParserMain ClimbProofs.
+From PV Require Import Regex Base UnicodeTables LexTables PyRepr Lexer AstDefs AstSpec AstImpl NodeModel ParserTables ParserBase ParserDecl ParserMain ClimbProofs CppArgs.
 Open Scope N_scope.
 
 Definition US : N := 31.  (* field separator *)
@@ -257,6 +257,31 @@ Definition api_climb (req: list N) : str :=
   | None => s2l "BADREQ"
   end.
 
+(* ---- preprocess_file argument assembly: kind (0 = str, 1 = list), cpp, file, n args ------ *)
+Fixpoint rd_strs (n: nat) (l: list N) : list str * list N :=
+  match n with
+  | O => ([], l)
+  | S n' => let (s, r) := rd_str l in let (ss, r') := rd_strs n' r in (s :: ss, r')
+  end.
+Definition api_path_list (req: list N) : str :=
+  match req with
+  | k :: r =>
+    let (cpp, r1) := rd_str r in
+    let (file, r2) := rd_str r1 in
+    match r2 with
+    | n :: r3 =>
+      let (args, _) := rd_strs (N.to_nat n) r3 in
+      let a := if N.eqb k 0 then ArgStr (match args with s :: _ => s | [] => [] end) else ArgList args in
+      join_str [RS] (path_list cpp a file)
+    | [] => s2l "BADREQ"
+    end
+  | [] => s2l "BADREQ"
+  end.
+
+(* ticks only *)
+Definition ticks_of (text: str) : N :=
+  match run_parse text (s2l "f.c") with Ok (_, st) => ticks pos st | _ => 0 end.
+
 Definition handle (req: list N) : str :=
   match req with
   | 1 :: r => api_lex r
@@ -264,6 +289,7 @@ Definition handle (req: list N) : str :=
   | 3 :: r => api_repr r
   | 20 :: r => api_parse r
   | 30 :: r => api_climb r
+  | 40 :: r => api_path_list r
   | 10 :: r => api_children r
   | 11 :: r => api_iter r
   | 12 :: r => api_show r
